@@ -101,6 +101,8 @@ func runC08(r *core.Run) {
 	} else {
 		core.Clause(r, "family-ABC", core.Opts{Rule: rule}, genAlign(r, "all", "ABC", 3, bothFns), checkC08(r))
 	}
+	single := checkC08(r)
+	alignHistories(r, []string{"sym:1:-1:-1:0", "sym:3:-3:-1:-2", "sym:2:-3:0:-1", "asym:0:-1"}, func(c alnCase, _ alnResult, _ bool) core.Outcome { return single(c) })
 	core.Clause(r, "shipped", core.Opts{Rule: "every pair over {A,R,W,X} with each shipped PAM/BLOSUM matrix and over {a,b,0x00,0xFE} with Levenshtein; non-trivial = both non-empty"},
 		genShipped(core.Pick(r, 3, 4), bothFns), checkC08(r))
 }
